@@ -328,25 +328,32 @@ Definition plan_replace_leaders (b : bstate) (best next : splan) : splan :=
       then compare_plan b best2 (with_lbr next (ostore (p_add next))) else best2)
     (pm_ids (b_cur b)) best.
 
+Definition cur_free (b : bstate) (st : Z) : bool := negb (is_some (pm_get (b_cur b) st)).
+
 Definition plan_replace (b : bstate) : splan :=
   (* promote learner + demote voter *)
   let best1 := fold_left (fun best d => fold_left (fun best p =>
                   plan_replace_leaders b best (SPlan 0 0 None None (Some p) (Some d))) (b_promote b) best)
                 (b_demote b) empty_plan in
-  (* add voter + remove voter OR add learner + remove learner *)
+  (* add voter + demote voter *)
+  let best1' := fold_left (fun best d => fold_left (fun best a =>
+                  if negb (is_learner a)
+                  then plan_replace_leaders b best (SPlan 0 0 (Some a) None None (Some d)) else best) (b_add b) best)
+                (b_demote b) best1 in
+  (* add voter + remove voter OR add learner + remove learner; the store of the new peer must be free *)
   let best2 := fold_left (fun best a => fold_left (fun best r =>
-                  if Bool.eqb (is_learner r) (is_learner a)
+                  if Bool.eqb (is_learner r) (is_learner a) && cur_free b (pstore a)
                   then plan_replace_leaders b best (SPlan 0 0 (Some a) (Some r) None None) else best) (b_remove b) best)
-                (b_add b) best1 in
-  (* add learner + promote learner + remove voter   (j != k compares the store ids) *)
+                (b_add b) best1' in
+  (* add learner + promote learner + remove voter *)
   let best3 := fold_left (fun best p => fold_left (fun best a =>
                   if is_learner a then
                     fold_left (fun best r =>
-                      if negb (is_learner r) && negb (pstore a =? pstore r)
+                      if negb (is_learner r) && cur_free b (pstore a)
                       then plan_replace_leaders b best (SPlan 0 0 (Some a) (Some r) (Some p) None) else best) (b_remove b) best
                   else best) (b_add b) best)
                 (b_promote b) best2 in
-  (* add voter + demote voter + remove learner *)
+  (* add voter + demote voter + remove learner   (j != k compares the store ids) *)
   fold_left (fun best d => fold_left (fun best r =>
       if is_learner r then
         fold_left (fun best a =>
@@ -371,9 +378,11 @@ Definition plan_remove_peer (b : bstate) : splan :=
     (b_remove b) empty_plan.
 
 Definition plan_add_peer (b : bstate) : splan :=
-  fold_left (fun best a => fold_left (fun best l =>
-      if allow_leader_o b (pm_get (b_cur b) l) false
-      then compare_plan b best (SPlan l 0 (Some a) None None None) else best) (pm_ids (b_cur b)) best)
+  fold_left (fun best a =>
+      if negb (cur_free b (pstore a)) then best      (* occupied until the old peer is removed *)
+      else fold_left (fun best l =>
+             if allow_leader_o b (pm_get (b_cur b) l) false
+             then compare_plan b best (SPlan l 0 (Some a) None None None) else best) (pm_ids (b_cur b)) best)
     (b_add b) empty_plan.
 
 Definition plan_fn_of (n : string) : bstate -> splan :=
@@ -452,7 +461,7 @@ Definition prepare_build (b : bstate) (alloc : list (Z * Z)) : option bstate :=
     let add := fold_left (fun add n =>
                  let o := pm_get (b_origin b) (pstore n) in
                  if negb (is_some o) || (negb (b_allow_demote b) && negb (olearner o) && is_learner n)
-                 then pm_set add (if pid n =? 0 then Peer (pstore n) (alloc_of alloc (pstore n)) (prole n) else n)
+                 then pm_set add (if (pid n =? 0) || is_some o then Peer (pstore n) (alloc_of alloc (pstore n)) (prole n) else n)
                  else add) (b_target b) [] in
     let tl := match pm_get (b_target b) (b_tleader b) with
               | Some p => if is_learner p then 0 else b_tleader b
